@@ -38,7 +38,8 @@ Lemma tie_fully_translated : c08_fully_translated = true.
 Proof. reflexivity. Qed.
 
 (** [cd = {k: v for k, v in self._cls_dict.items() if k not in (...)}] *)
-Lemma tie_filter_ns i : t_filter_ns (i_attr_names i) (i_ns i) = step_filter i.
+(** ([base_names0]: the filter must not depend on which of the field names are inherited) *)
+Lemma tie_filter_ns i base_names0 : t_filter_ns (i_attr_names i) base_names0 (i_ns i) = step_filter i.
 Proof.
   unfold t_filter_ns, step_filter, dropped_name. apply filter_ext. intros [k e]. cbn [fst]. bools.
 Qed.
@@ -73,6 +74,11 @@ Proof. unfold t_weakref_inherited, weakref_inherited. rewrite ?existsb_filter. a
 
 Lemma tie_iter_slots d : t_iter_slots d = iter_slots d.
 Proof. destruct d; reflexivity. Qed.
+
+(** a member of [cd] is a cached property iff [isinstance(member, cached_property)] - instances of
+    subclasses included ([KCached] of the model is classified by isinstance) *)
+Lemma tie_cached_member inst exact : t_cached_member inst exact = inst.
+Proof. destruct inst, exact; reflexivity. Qed.
 
 (** from [base_names = ...] to [cd["__slots__"] = ...]: the new [__slots__] and the re-used slots *)
 Lemma tie_slots i ex :
